@@ -109,6 +109,13 @@ class Reader:
             return self.unknown(n)
         if isinstance(n, ast.Call):
             f = ast.unparse(n.func)
+            # `np.asarray(E, dtype=float)` / `E.astype(float)`: the same real numbers (only their machine type changes)
+            if f in ('np.asarray', 'np.array', 'np.asfarray') and len(n.args) == 1 \
+                    and all(k.arg == 'dtype' and ast.unparse(k.value) in ('float', 'np.float64') for k in n.keywords):
+                return E(n.args[0])
+            if isinstance(n.func, ast.Attribute) and n.func.attr == 'astype' and len(n.args) == 1 and not n.keywords \
+                    and ast.unparse(n.args[0]) in ('float', 'np.float64'):
+                return E(n.func.value)
             if n.keywords and not (f == 'np.linalg.norm'):
                 return self.unknown(n)
             if f in BIN2 and len(n.args) == 2:
